@@ -7,8 +7,9 @@
        white space of the last non-floating child, fits in `max_x - position_x` AND no float is waiting;
      - otherwise appended to `waiting_floats`; the waiting floats are laid out, in list order, after the line
        (get_next_linebox: `for waiting_float in waiting_floats: ... float_layout(...)`, at the bottom of the line).
-   A float laid out at once takes its margin width off the room (the caller does `max_x -= child.margin_width()`;
-   the `position_x += dx` of the helper is lost, finding F50, which does not change the room).
+   A float laid out at once takes its margin width off the room: a left float (child of the line box) advances
+   position_x by max(margin width, 0) (the helper returns the new position), any other one makes the caller do
+   `max_x -= child.margin_width()`.
    Definitions only; theorems in proofs/C11_queue.v. *)
 From Coq Require Import QArith List Bool.
 Import ListNotations.
@@ -18,9 +19,11 @@ Definition Qlt_b (a b : Q) : bool := negb (Qle_bool b a).
 
 (* a child of the line: inline content of a given width ending with `trailing` of collapsible white space
    (both as measured by Pango: oracles), or a float with its shrink-to-fit content width and its margin width *)
+Definition Qmax0 (a : Q) : Q := if Qle_bool 0 a then a else 0.
+
 Inductive item :=
 | Txt (width trailing : Q)
-| Flt (content_width margin_width : Q).
+| Flt (is_left : bool) (content_width margin_width : Q).
 
 Record qstate := mk_q {
   q_pos : Q;                 (* position_x, from the start of the line *)
@@ -35,11 +38,17 @@ Definition is_nil {A} (l : list A) : bool := match l with [] => true | _ => fals
 Definition step (st : qstate) (it : item) : qstate :=
   match it with
   | Txt w t => mk_q (q_pos st + w) (q_maxx st) (Some t) (q_next st) (q_now st) (q_wait st)
-  | Flt cw mw =>
+  | Flt is_left cw mw =>
       let float_width := cw - match q_trail st with Some t => t | None => 0 end in
       if Qlt_b (q_maxx st - q_pos st) float_width || negb (is_nil (q_wait st))
       then mk_q (q_pos st) (q_maxx st) (q_trail st) (S (q_next st)) (q_now st) (q_wait st ++ [q_next st])
-      else mk_q (q_pos st) (q_maxx st - mw) (q_trail st) (S (q_next st)) (q_now st ++ [q_next st]) (q_wait st)
+      else
+        (* dx = max(margin_width, 0); a left float whose parent is the line box advances position_x (the helper
+           returns it and the caller takes it when it changed), any other float laid out at once shortens max_x *)
+        let dx := Qmax0 mw in
+        if is_left && negb (Qeq_bool (q_pos st + dx) (q_pos st))
+        then mk_q (q_pos st + dx) (q_maxx st) (q_trail st) (S (q_next st)) (q_now st ++ [q_next st]) (q_wait st)
+        else mk_q (q_pos st) (q_maxx st - mw) (q_trail st) (S (q_next st)) (q_now st ++ [q_next st]) (q_wait st)
   end.
 
 Definition run_line (room : Q) (items : list item) : qstate :=
@@ -49,7 +58,7 @@ Definition run_line (room : Q) (items : list item) : qstate :=
 Definition call_order (st : qstate) : list nat := q_now st ++ q_wait st.
 
 Definition count_floats (items : list item) : nat :=
-  length (filter (fun it => match it with Flt _ _ => true | _ => false end) items).
+  length (filter (fun it => match it with Flt _ _ _ => true | _ => false end) items).
 
 (* judge of the render tie.  case: room on the line, the children in source order, and for every float_layout call
    observed in the render, in call order, (rank of the float in source order, laid out at the top of the line?).
